@@ -184,6 +184,7 @@ func runC20(ctx *core.Ctx) {
 		execC20(ctx, c, q, r)
 	})
 	runC20Literals(ctx)
+	runC20CaseTwins(ctx)
 }
 
 type c20Out struct {
@@ -474,3 +475,58 @@ func execC20(ctx *core.Ctx, c *c20Case, q c20Query, r *rand.Rand) {
 }
 
 var _ = streamsql.New
+
+// runC20CaseTwins: two instances whose statements differ ONLY in the letter case of string literals and of
+// column names (both are case-sensitive), fed alternately; every result is compared with a direct reference.
+// Process-wide caches keyed by a normalised form of the expression text would hand one instance the other's
+// compiled program.
+func runC20CaseTwins(ctx *core.Ctx) {
+	n := ctx.N(6, 60)
+	ctx.Cases("c20case", n, 2, func(i int, r *rand.Rand) {
+		type lits struct{ suffix, repl, dflt, col string }
+		a := lits{"-ALERT", "Q", "NONE", "Owner"}
+		b := lits{"-alert", "q", "none", "owner"}
+		if i%2 == 1 {
+			a, b = b, a // which twin is evaluated first
+		}
+		sql := func(l lits) string {
+			return fmt.Sprintf("SELECT id, concat(s, '%s') AS r1, replace(s, 'a', '%s') AS r2, coalesce(t, '%s') AS r3, upper(%s) AS r4 FROM stream", l.suffix, l.repl, l.dflt, l.col)
+		}
+		c := &c20Case{CaseRef: core.CaseRef{Stream: "c20case", Index: i}, Query: "case_twins", SQL: sql(a), Other: sql(b), API: "emitsync", Mode: "case_twins"}
+		attrs := map[string]string{"query": c.Query, "api": c.API, "mode": c.Mode}
+		sa, err := eng.New(c.SQL, eng.Opts{})
+		if err != nil {
+			ctx.Violate(core.Violation{Kind: "isolation.execute_error", Attrs: attrs, Detail: err.Error() + "\n  sql: " + c.SQL, Case: c})
+			return
+		}
+		defer sa.Stop()
+		sb, err := eng.New(c.Other, eng.Opts{})
+		if err != nil {
+			ctx.Violate(core.Violation{Kind: "isolation.execute_error", Attrs: attrs, Detail: err.Error() + "\n  sql: " + c.Other, Case: c})
+			return
+		}
+		defer sb.Stop()
+		check := func(who string, l lits, row Row, got map[string]any) bool {
+			s := row["s"].(string)
+			want := Row{"r1": s + l.suffix, "r2": strings.ReplaceAll(s, "a", l.repl), "r3": l.dflt, "r4": strings.ToUpper(row[l.col].(string))}
+			for k, w := range want {
+				if got == nil || !valEq(got[k], w) {
+					ctx.Violate(core.Violation{Kind: "isolation.result_differs_from_solo", Attrs: attrs,
+						Detail: fmt.Sprintf("instance %s (%s) returned %v for row %v; alone it gives %s=%v — the twin statement differs only in the letter case of its literals and column names\n  twin: %s", who, map[string]string{"A": c.SQL, "B": c.Other}[who], got, row, k, w, map[string]string{"A": c.Other, "B": c.SQL}[who]), Case: c})
+					return false
+				}
+			}
+			return true
+		}
+		for j := 0; j < 40; j++ {
+			row := Row{"id": j, "s": pick(r, []string{"banana", "abc", "xyz", "a"}) + fmt.Sprint(r.Intn(9)), "Owner": pick(r, []string{"alice", "carol"}), "owner": pick(r, []string{"bob", "dave"})}
+			ga, _ := sa.EmitSync(eng.DeepCopyMap(row))
+			gb, _ := sb.EmitSync(eng.DeepCopyMap(row))
+			ctx.Count("case_twins.results_checked", 2)
+			if !check("A", a, row, ga) || !check("B", b, row, gb) {
+				return
+			}
+		}
+		ctx.Case("c20case"+c.SQL, true, nil)
+	})
+}
